@@ -70,7 +70,8 @@ func provYAML(kv map[string]string) string {
 	return b.String()
 }
 
-// acquire runs the provider and takes n ammo; the provider is stopped by cancelling its context.
+// acquire runs the provider and takes n ammo; the provider is stopped by cancelling its context. A provider whose
+// Run has returned and whose sink stays empty (no ammo at all) ends the acquisition.
 func acquire(p core.Provider, n int) []*httpscenario.Scenario {
 	ctx, cancel := context.WithCancel(context.Background())
 	done := make(chan struct{})
@@ -78,14 +79,49 @@ func acquire(p core.Provider, n int) []*httpscenario.Scenario {
 		defer close(done)
 		_ = p.Run(ctx, core.ProviderDeps{Log: zap.NewNop(), PoolID: "p"})
 	}()
-	var out []*httpscenario.Scenario
-	for i := 0; i < n; i++ {
-		a, ok := p.Acquire()
-		if !ok {
-			break
+	ch := make(chan core.Ammo)
+	stop := make(chan struct{})
+	go func() {
+		for {
+			a, ok := p.Acquire()
+			if !ok {
+				close(ch)
+				return
+			}
+			select {
+			case ch <- a:
+			case <-stop:
+				return
+			}
 		}
-		out = append(out, a.(*httpscenario.Scenario))
+	}()
+	var out []*httpscenario.Scenario
+	runDone := false
+loop:
+	for len(out) < n {
+		if !runDone {
+			select {
+			case a, ok := <-ch:
+				if !ok {
+					break loop
+				}
+				out = append(out, a.(*httpscenario.Scenario))
+			case <-done:
+				runDone = true
+			}
+			continue
+		}
+		select {
+		case a, ok := <-ch:
+			if !ok {
+				break loop
+			}
+			out = append(out, a.(*httpscenario.Scenario))
+		case <-time.After(100 * time.Millisecond):
+			break loop
+		}
 	}
+	close(stop)
 	cancel()
 	select {
 	case <-done:
